@@ -47,6 +47,14 @@ pub struct CallSpec {
     pub explicit_false: bool,
     /// padding of the reply's string member (to cross buffer growth steps)
     pub pad: u16,
+    /// padding of the *call's* string parameter (so that the enqueued calls end before / at /
+    /// after the write buffer's growth steps)
+    #[serde(default)]
+    pub call_pad: u16,
+    /// the success replies of this call carry no `parameters` member at all
+    /// (`{"continues":true}`, `{}`), as zlink's own server writes them for `Reply::new(None)`
+    #[serde(default)]
+    pub bare: bool,
 }
 
 #[derive(Debug, Clone, Serialize, Deserialize)]
@@ -72,6 +80,10 @@ impl Case {
                 Kind::Plain => out.push(final_frame(c, &name, i, false)),
                 Kind::More => {
                     for j in 0..c.k {
+                        if c.bare {
+                            out.push(br#"{"continues":true}"#.to_vec());
+                            continue;
+                        }
                         out.push(
                             format!(r#"{{"parameters":{{"name":"{name}","n":{j}}},"continues":true}}"#).into_bytes(),
                         );
@@ -98,13 +110,29 @@ impl Case {
         s
     }
 
+    /// Total bytes the first `n` calls occupy in the write buffer (documents + terminators).
+    pub fn call_bytes(&self, n: usize) -> usize {
+        self.calls_of().iter().take(n).map(|(_, c)| serde_json::to_vec(c).map(|v| v.len() + 1).unwrap_or(0)).sum()
+    }
+
+    /// Pad call `j % len` so that the calls up to and including it end at the next 256-byte step + d.
+    pub fn dial_calls(&mut self, j: usize, d: i32) {
+        let j = j % self.calls.len();
+        self.calls[j].call_pad = 0;
+        let end = self.call_bytes(j + 1) as i64;
+        let target = (end / 256 + 1) * 256 + d as i64;
+        if target > end {
+            self.calls[j].call_pad = (target - end) as u16;
+        }
+    }
+
     fn calls_of(&self) -> Vec<(String, Call<MethodA<'static>>)> {
         // MethodA::Echo borrows a &str; leak-free by building owned strings first
         self.calls
             .iter()
             .enumerate()
             .map(|(i, c)| {
-                let s = format!("call{i}");
+                let s = format!("call{i}{}", pad(c.call_pad as usize));
                 (s, c.kind)
             })
             .map(|(s, kind)| {
@@ -125,6 +153,13 @@ fn final_frame(c: &CallSpec, name: &str, i: usize, more: bool) -> Vec<u8> {
     match c.err {
         1 => br#"{"error":"org.example.Bad"}"#.to_vec(),
         2 => format!(r#"{{"error":"org.example.Worse","parameters":{{"code":{i},"msg":"{name}"}}}}"#).into_bytes(),
+        _ if c.bare => {
+            if more && c.explicit_false {
+                br#"{"continues":false}"#.to_vec()
+            } else {
+                b"{}".to_vec()
+            }
+        }
         _ => {
             if more && c.explicit_false {
                 format!(r#"{{"parameters":{{"name":"{name}","n":{i}}},"continues":false}}"#).into_bytes()
@@ -356,8 +391,10 @@ fn call_spec_strategy() -> impl Strategy<Value = CallSpec> {
         prop_oneof![3 => Just(0u8), 1 => Just(1u8), 1 => Just(2u8)],
         any::<bool>(),
         prop_oneof![4 => 0u16..8, 1 => 180u16..300, 1 => 0u16..700],
+        prop_oneof![5 => Just(0u16), 2 => 0u16..40, 1 => 150u16..300, 1 => 0u16..700],
+        prop::bool::weighted(0.15),
     )
-        .prop_map(|(kind, k, err, explicit_false, pad)| CallSpec { kind, k, err, explicit_false, pad })
+        .prop_map(|(kind, k, err, explicit_false, pad, call_pad, bare)| CallSpec { kind, k, err, explicit_false, pad, call_pad, bare })
 }
 
 pub fn case_strategy() -> impl Strategy<Value = Case> {
@@ -366,9 +403,14 @@ pub fn case_strategy() -> impl Strategy<Value = Case> {
         0u8..=2,
         chunk_plan_strategy(),
         prop::collection::vec(0u8..3, 0..4),
+        // dial: make the enqueued calls up to and including call j end at a 256-byte step + d
+        prop::option::weighted(0.35, (any::<u8>(), -2i32..=2)),
     )
-        .prop_map(|(calls, trailing, plan, pend)| {
+        .prop_map(|(calls, trailing, plan, pend, dial)| {
             let mut case = Case { calls, trailing, cuts: vec![], pend };
+            if let Some((j, d)) = dial {
+                case.dial_calls(j as usize, d);
+            }
             case.cuts = resolve_cuts(&plan, &case.reply_stream_bytes());
             case
         })
@@ -400,11 +442,11 @@ fn enumerated() -> Vec<Case> {
                     .enumerate()
                     .map(|(i, &kind)| match fam {
                         // all succeed, streams have 2 items
-                        0 => CallSpec { kind, k: 2, err: 0, explicit_false: i % 2 == 0, pad: 0 },
+                        0 => CallSpec { kind, k: 2, err: 0, explicit_false: i % 2 == 0, pad: 0, call_pad: 0, bare: i % 3 == 2 },
                         // errors everywhere, empty streams
-                        1 => CallSpec { kind, k: 0, err: 1 + (i % 2) as u8, explicit_false: false, pad: 0 },
+                        1 => CallSpec { kind, k: 0, err: 1 + (i % 2) as u8, explicit_false: false, pad: 0, call_pad: 0, bare: false },
                         // mixed, one large reply
-                        _ => CallSpec { kind, k: (i % 3) as u8, err: if i % 2 == 1 { 2 } else { 0 }, explicit_false: true, pad: if i == 1 { 250 } else { 3 } },
+                        _ => CallSpec { kind, k: (i % 3) as u8, err: if i % 2 == 1 { 2 } else { 0 }, explicit_false: true, pad: if i == 1 { 250 } else { 3 }, call_pad: if i == 0 { 190 } else { 0 }, bare: false },
                     })
                     .collect();
                 let base = Case { calls, trailing, cuts: vec![], pend: vec![] };
